@@ -79,6 +79,25 @@ func genCase(t *rapid.T, w *chain.World) (*chain.Program, []chain.Op, []chain.Fa
 		}
 	}
 	prog := &chain.Program{Opts: model.Options{}, Body: body}
+	// one case in four: handlers record errors and an OnError hook (made of writer ops) reacts to them at the end
+	if rapid.IntRange(0, 3).Draw(t, "erroring") == 0 {
+		for i, k := 0, rapid.IntRange(1, 2).Draw(t, "nAddError"); i < k; i++ {
+			h := scripts[rapid.IntRange(0, nh-1).Draw(t, "errorIn")]
+			at := rapid.IntRange(0, len(h.Ops)).Draw(t, "errorAt")
+			h.Ops = append(append(append([]chain.Op{}, h.Ops[:at]...), chain.Op{K: chain.OpAddError}), h.Ops[at:]...)
+		}
+		var hook []chain.Op
+		for i, k := 0, rapid.IntRange(0, 3).Draw(t, "nOnErrorOps"); i < k; i++ {
+			hook = append(hook, genOp(t))
+		}
+		prog.Hooks.OnError = w.NewScript("onerror", hook...)
+	}
+	// rarely a handler takes over the connection
+	if rapid.IntRange(0, 9).Draw(t, "hijacking") == 0 {
+		h := scripts[rapid.IntRange(0, nh-1).Draw(t, "hijackIn")]
+		at := rapid.IntRange(0, len(h.Ops)).Draw(t, "hijackAt")
+		h.Ops = append(append(append([]chain.Op{}, h.Ops[:at]...), chain.Op{K: chain.OpHijack}), h.Ops[at:]...)
+	}
 	// one case in four: a handler panics somewhere among its ops and an OnPanic hook sets the status / writes
 	if rapid.IntRange(0, 3).Draw(t, "panicking") == 0 {
 		h := scripts[rapid.IntRange(0, nh-1).Draw(t, "panicIn")]
@@ -153,6 +172,9 @@ func classify(prog *chain.Program, faults []chain.Fault) (nontrivial []string) {
 	}
 	if prog.Hooks.OnPanic != nil {
 		nontrivial = append(nontrivial, "panic-with-OnPanic-hook")
+	}
+	if prog.Hooks.OnError != nil {
+		nontrivial = append(nontrivial, "errors-with-OnError-hook")
 	}
 	return
 }
